@@ -125,6 +125,7 @@ class Directed(Sched):
 
     def emit(self, **ev):
         super().emit(**ev)
+        ev = self.events[-1]
         if self.expected and self.expected[0]['match'](ev):
             self.expected.pop(0)
             self.matched += 1
